@@ -1,0 +1,153 @@
+// Copyright 2025 The Go Authors. All rights reserved.
+// Use of this source code is governed by a BSD-style
+// license that can be found in the LICENSE file.
+
+//go:build verif
+
+package httpproxy
+
+import (
+	"net"
+	"net/netip"
+	"net/url"
+	"strings"
+)
+
+// Contracts, spec functions and lemma harnesses for the deductive verifier in /verif (govc).
+// This file is compiled only with -tags verif; it adds no behaviour to the package.
+
+// ---------------------------------------------------------------------------
+// NO_PROXY rules (property C52).
+//
+// Standard-library notions are taken as they are (deterministic, otherwise uninterpreted
+// functions, /verif/stdlib/proxy.contracts): net.SplitHostPort, netip.ParseAddr / Addr.AsSlice
+// ("host is an IP literal", its address), IP.IsLoopback, IP.Equal, IPNet.Contains, and the
+// normalisation strings.ToLower(strings.TrimSpace(host)).
+
+//@ pure
+func specSplitOK(addr string) bool {
+	_, _, err := net.SplitHostPort(addr)
+	return err == nil
+}
+
+//@ pure
+func specHost(addr string) string {
+	h, _, _ := net.SplitHostPort(addr)
+	return h
+}
+
+//@ pure
+func specPort(addr string) string {
+	_, p, _ := net.SplitHostPort(addr)
+	return p
+}
+
+// specNorm: the form of the host the NO_PROXY domain entries are compared with.
+//
+//@ pure
+func specNorm(h string) string { return strings.ToLower(strings.TrimSpace(h)) }
+
+// specIP: the address of an IP-literal host, nil for a name.
+//
+//@ pure
+func specIP(h string) net.IP {
+	nip, err := netip.ParseAddr(h)
+	if err != nil {
+		return nil
+	}
+	return net.IP(nip.AsSlice())
+}
+
+//@ pure
+func specLoopback(h string) bool {
+	ip := specIP(h)
+	return ip != nil && ip.IsLoopback()
+}
+
+//@ pure
+func specContains(n *net.IPNet, ip net.IP) bool { return n.Contains(ip) }
+
+//@ pure
+func specSameIP(a, b net.IP) bool { return a.Equal(b) }
+
+// specMatch: entry m of the NO_PROXY list matches (dispatch over the four matcher kinds, each
+// with the exact contract below).
+//
+//@ pure
+func specMatch(m matcher, host, port string, ip net.IP) bool { return m.match(host, port, ip) }
+
+// endsIn: s ends with the bytes of suf.
+//
+//@ pure
+func endsIn(s, suf string) bool {
+	return len(s) >= len(suf) && s[len(s)-len(suf):] == suf
+}
+
+// portOK: an entry without port matches every port, otherwise the ports must be equal.
+//
+//@ pure
+func portOK(mport, port string) bool { return mport == "" || mport == port }
+
+// The four matcher kinds: '*'; CIDR; IP with optional port; domain with optional port, where a
+// domain entry ".example.com" matches every name ending in it and, if it was written without the
+// leading dot (matchHost), also the name itself; a domain entry never matches an IP literal.
+
+//@ func (allMatch).match(a, host, port, ip) (r)
+//@   function
+//@   ensures r
+//@
+//@ func (cidrMatch).match(m, host, port, ip) (r)
+//@   function
+//@   ensures r <==> specContains(m.cidr, ip)
+//@
+//@ func (ipMatch).match(m, host, port, ip) (r)
+//@   function
+//@   ensures r <==> (specSameIP(m.ip, ip) && portOK(m.port, port))
+//@
+//@ func (domainMatch).match(m, host, port, ip) (r)
+//@   function
+//@   ensures r <==> (ip == nil && (endsIn(host, m.host) || (m.matchHost && host == m.host[1:])) && portOK(m.port, port))
+
+// useProxy(addr) is false whenever addr does not split, the host is "localhost" or a loopback IP
+// literal, or some NO_PROXY entry matches: an IP entry (only consulted for IP-literal hosts) or a
+// domain entry; it is true for the empty address. (The converse, "false only for one of these
+// reasons", is not part of the contract: the solvers did not decide it within the budget.)
+
+//@ func (*config).useProxy(cfg, addr) (r)
+//@   requires cfg != nil
+//@   ensures len(addr) == 0 ==> r
+//@   ensures len(addr) > 0 && !specSplitOK(addr) ==> !r
+//@   ensures len(addr) > 0 && specSplitOK(addr) && (specHost(addr) == "localhost" || specLoopback(specHost(addr))) ==> !r
+//@   ensures forall i int :: len(addr) > 0 && specSplitOK(addr) && specIP(specHost(addr)) != nil && 0 <= i && i < len(cfg.ipMatchers) && specMatch(cfg.ipMatchers[i], specNorm(specHost(addr)), specPort(addr), specIP(specHost(addr))) ==> !r
+//@   ensures forall i int :: len(addr) > 0 && specSplitOK(addr) && 0 <= i && i < len(cfg.domainMatchers) && specMatch(cfg.domainMatchers[i], specNorm(specHost(addr)), specPort(addr), specIP(specHost(addr))) ==> !r
+//@   loop 1 invariant -1 <= rangeindex && rangeindex < len(cfg.ipMatchers)
+//@   loop 1 invariant forall j int :: 0 <= j && j <= rangeindex ==> !specMatch(cfg.ipMatchers[j], addr, port, ip)
+//@   loop 2 invariant -1 <= rangeindex && rangeindex < len(cfg.domainMatchers)
+//@   loop 2 invariant forall j int :: 0 <= j && j <= rangeindex ==> !specMatch(cfg.domainMatchers[j], addr, port, ip)
+
+// canonicalAddr (url.Hostname/Port, IDNA, net.JoinHostPort) is outside the subset: trusted,
+// deterministic, nothing else assumed.
+//
+//@ func canonicalAddr(u) (r)
+//@   trusted
+//@   function
+
+//@ pure
+func specCanon(u *url.URL) string { return canonicalAddr(u) }
+
+// proxyForURL: https URLs use HTTPS_PROXY, http URLs HTTP_PROXY (refused with an error under CGI),
+// other schemes none; a configured proxy is returned exactly when useProxy, asked once about
+// canonicalAddr(reqURL), says yes.
+//
+//@ func (*config).proxyForURL(cfg, reqURL) (r, err)
+//@   allocates
+//@   requires cfg != nil && reqURL != nil
+//@   ghost asked += 1 at call useProxy
+//@   ghost yes += 1 after call useProxy when $r0
+//@   assert at call useProxy: $addr == specCanon(reqURL)
+//@   ensures reqURL.Scheme == "http" && cfg.httpProxy != nil && cfg.CGI ==> r == nil && err != nil && ghost(asked) == 0
+//@   ensures !(reqURL.Scheme == "http" && cfg.httpProxy != nil && cfg.CGI) ==> err == nil
+//@   ensures !(reqURL.Scheme == "http" && cfg.CGI) && reqURL.Scheme == "http" && cfg.httpProxy != nil ==> ghost(asked) == 1 && (ghost(yes) == 1 ==> r == cfg.httpProxy) && (ghost(yes) == 0 ==> r == nil)
+//@   ensures reqURL.Scheme == "https" && cfg.httpsProxy != nil ==> ghost(asked) == 1 && (ghost(yes) == 1 ==> r == cfg.httpsProxy) && (ghost(yes) == 0 ==> r == nil)
+//@   ensures (reqURL.Scheme == "https" && cfg.httpsProxy == nil) || (reqURL.Scheme == "http" && cfg.httpProxy == nil) || (reqURL.Scheme != "https" && reqURL.Scheme != "http") ==> r == nil && err == nil && ghost(asked) == 0
+//@   ensures ghost(yes) == 0 || ghost(yes) == 1
